@@ -637,9 +637,13 @@ func c16ScaleFamilies() []c16ScaleFam {
 		{"line-comments", func(n int) string { return H + rep("// c\n", n) + "let f (a:int) =\n  a\n" }, []int{1000, 100000}, nil},
 		{"blank-lines", func(n int) string { return H + rep("\n", n) + "let f (a:int) =\n  a\n" }, []int{1000, 1000000}, nil},
 		{"trailing-spaces", func(n int) string { return H + "let f (a:int) =\n  a" + rep(" ", n) + "\n" }, []int{1000, 1000000}, nil},
-		{"long-line-comment-first", func(n int) string { return "package main\n\n//" + rep("x", n) + "\nimport frt\n\nlet f (a:int) =\n  a\n" }, []int{1000, 70000, 1000000}, nil},
+		{"long-line-comment-first", func(n int) string {
+			return "package main\n\n//" + rep("x", n) + "\nimport frt\n\nlet f (a:int) =\n  a\n"
+		}, []int{1000, 70000, 1000000}, nil},
 		{"long-line-data-table", func(n int) string { return H + "let table = [0" + rep("; 1", n) + "]\n\nlet f (a:int) =\n  a\n" }, []int{1000, 30000}, []int{300000}},
-		{"long-line-block-comment-first", func(n int) string { return "package main\n\n/*" + rep("x", n) + "*/\nimport frt\n\nlet f (a:int) =\n  a\n" }, []int{70000, 1000000}, nil},
+		{"long-line-block-comment-first", func(n int) string {
+			return "package main\n\n/*" + rep("x", n) + "*/\nimport frt\n\nlet f (a:int) =\n  a\n"
+		}, []int{70000, 1000000}, nil},
 		{"sinterp-holes", func(n int) string { return H + "let f (a:int) =\n  $\"" + rep("{a}", n) + "\"\n" }, []int{1000, 100000}, nil},
 	}
 }
@@ -702,8 +706,8 @@ func c16FaultRuns(env *scratch.Env, fc string, tier string) []*c16Exec {
 	for _, pn := range names {
 		src := progs[pn]
 		stale := map[string]string{
-			"longer":  strings.Repeat("// stale line of an earlier, longer output\n", len(src)/8+40),
-			"shorter": "// stale\n",
+			"longer":      strings.Repeat("// stale line of an earlier, longer output\n", len(src)/8+40),
+			"shorter":     "// stale\n",
 			"same-prefix": "package main\n\n" + strings.Repeat("// stale tail\n", len(src)/8+40),
 		}
 		for _, k := range []string{"longer", "shorter", "same-prefix"} {
